@@ -250,4 +250,11 @@ PROPS = {
         "assumptions": COMMON_ASSUME + ["tidwall gjson/sjson/pretty executed from SSA"],
         "outside": ["YAML matchers (goccy/go-yaml)"],
     },
+    "selftest": {
+        "runs": [{"harness": "H_selftest"}],
+        "bounds": {"quick": "10 texts x ~35 library functions", "thorough": "same"},
+        "assumptions": [],
+        "outside": [],
+        "internal": True,
+    },
 }
